@@ -63,8 +63,21 @@ func runHist(casesPath, obsPath string) {
 		hc := cases[i]
 		rec := map[string]any{"id": hc.ID, "kind": "hist", "calls": hc.Calls}
 		obs := []map[string]any{}
+		kept := []*fhirpath.Expression{}
 		for _, call := range hc.Calls {
-			obs = append(obs, replayCall(call, base0, forest, res))
+			o, fe := replayCall(call, base0, forest, res)
+			obs = append(obs, o)
+			kept = append(kept, fe)
+		}
+		// every expression of the history evaluated once more after the last call:
+		// what an expression is bound to never changes
+		for j, fe := range kept {
+			if fe != nil {
+				out, _, _ := evalOutcome(forest, fe, res, nil, lib.DefaultDeadline)
+				obs[j]["late"] = out
+			} else {
+				obs[j]["late"] = lib.Outcome{"k": "none"}
+			}
 		}
 		rec["obs"] = obs
 		if err := w.Write(rec); err != nil {
@@ -76,7 +89,7 @@ func runHist(casesPath, obsPath string) {
 	}
 }
 
-func replayCall(call ccall, base0 tableSnap, forest *lib.Forest, res []lib.Resource) map[string]any {
+func replayCall(call ccall, base0 tableSnap, forest *lib.Forest, res []lib.Resource) (map[string]any, *fhirpath.Expression) {
 	o := map[string]any{}
 	var mu sync.Mutex
 	dumps := []stepDump{}
@@ -123,6 +136,7 @@ func replayCall(call ccall, base0 tableSnap, forest *lib.Forest, res []lib.Resou
 		out, _, _ := evalOutcome(forest, fe, res, nil, lib.DefaultDeadline)
 		o["eval"] = out
 	} else {
+		fe = nil
 		o["eval"] = lib.Outcome{"k": "none"}
 	}
 	// after the call: what a fresh Compile with no options sees
@@ -143,5 +157,5 @@ func replayCall(call ccall, base0 tableSnap, forest *lib.Forest, res []lib.Resou
 	after["extra"], after["missing"], after["altered"] = ex, mi, al
 	after["perm"] = lib.EvalOutcome(forest, permProbe, res, nil, nil)["k"]
 	o["after"] = after
-	return o
+	return o, fe
 }
